@@ -242,6 +242,29 @@ ident("lemma_r2g_m_rot_d2", "(sf (cc se))(sk sq) == (sk cc)((sf se) sq)", (sf * 
 ident("lemma_r2g_m_rot_b", "((si srho)(si (se st)))((se sg)(sf sh)) == (si si)(((se sg) st)((sf se)(sh srho)))",
       ((si * srho) * (si * (se * st))) * ((se * sg) * (sf * sh)), (si * si) * (((se * sg) * st) * ((sf * se) * (sh * srho))))
 
+
+# ---- scale invariance of Encode (lib/ris2_scale.vx) ----------------------------------------------------------------------------------------
+l, mu = A("l"), A("mu")
+ident("lemma_r2g_scale_add", "l a + l b == l (a + b)", l * a + l * b, l * (a + b), order=["l", "a", "b"])
+ident("lemma_r2g_scale_sub", "l a - l b == l (a - b)", l * a - l * b, l * (a - b), order=["l", "a", "b"])
+ident("lemma_r2g_scale_sub_neg", "l a - (-(l b)) == l (a - (-b))", l * a - (-(l * b)), l * (a - (-b)), order=["l", "a", "b"])
+ident("lemma_r2g_interchange", "(a b)(c d) == (a c)(b d)", (a * b) * (c * A("dd")), (a * c) * (b * A("dd")), order=["a", "b", "c", "dd"])
+ident("lemma_r2g_m_l3", "(mu smu) L2 l == (smu L2)(mu l)", ((mu * A("smu")) * A("l2")) * l, (A("smu") * A("l2")) * (mu * l), order=["l", "mu", "l2", "smu"])
+ident("lemma_r2g_m_zinv_sc", "((J u1)(J u2)) t == (J J)((u1 u2) t)", ((J * u1) * (J * u2)) * t, (J * J) * ((u1 * u2) * t), order=["jj", "u1", "u2", "t"])
+ident("lemma_r2g_m_mu5", "(smu (smu smu))(L2 L2) l == ((smu L2)(smu L2))(smu l)", ((A("smu") * (A("smu") * A("smu"))) * (A("l2") * A("l2"))) * l,
+      ((A("smu") * A("l2")) * (A("smu") * A("l2"))) * (A("smu") * l), order=["l", "l2", "smu"])
+ident("lemma_r2g_m_zinv_sc2", "(sj sm3)(((l2 u1)(l2 u2))(l t)) == (sj ((u1 u2) t))((sm3 (l2 l2)) l)",
+      (A("sj") * A("sm3")) * (((A("l2") * u1) * (A("l2") * u2)) * (l * t)), (A("sj") * ((u1 * u2) * t)) * ((A("sm3") * (A("l2") * A("l2"))) * l),
+      order=["sj", "sm3", "l2", "u1", "u2", "l", "t"])
+ident("lemma_r2g_m_prod4", "(a b)(c dd) == (a c)(b dd) with three-factor right: ((a b) c) dd == (a c)(b dd)", ((a * b) * c) * A("dd"), (a * c) * (b * A("dd")), order=["a", "b", "c", "dd"])
+ident("lemma_r2g_m_fin_sc", "((sj sm3)(sl2 su))(l2 sw) == ((sj su) sw)(sm3 (sl2 l2))",
+      ((A("sj") * A("sm3")) * (A("sl2") * A("su"))) * (A("l2") * A("sw")), ((A("sj") * A("su")) * A("sw")) * (A("sm3") * (A("sl2") * A("l2"))),
+      order=["sj", "sm3", "sl2", "su", "l2", "sw"])
+ident("lemma_r2g_m_fin_rot", "(((sj sm3)(sl2 su)) sk)(l2 sw) == (((sj su) sk) sw)(sm3 (sl2 l2))",
+      (((A("sj") * A("sm3")) * (A("sl2") * A("su"))) * A("sk")) * (A("l2") * A("sw")),
+      (((A("sj") * A("su")) * A("sk")) * A("sw")) * (A("sm3") * (A("sl2") * A("l2"))), order=["sj", "sm3", "sl2", "su", "sk", "l2", "sw"])
+ident("lemma_r2g_m_rot_y", "(l x) i == l (x i)", (l * x) * ii, l * (x * ii), order=["l", "x", "ii"])
+
 HEADER = """// GENERATED by tools/ris2_gen_algebra.py — do not edit (regenerate; `tools/ris2_gen_algebra.py --check` compares). Unit RIS2.
 // Field identities behind RistrettoPoint::double_and_compress_batch, each PROVED by lifting both sides to integer polynomials
 // (lib/ris2_zlift.vx) and ONE `by (nonlinear_arith)` polynomial identity with explicit cofactors. Nothing here is assumed.
